@@ -365,6 +365,24 @@ def check_cli(sc):
             dff = first_value_diff(ob['values'][j], case.values()[i])
             if dff is not None:
                 return out.fail('subset command: wrong values', position=j, index=dff[0], got=dff[1], expected=dff[2])
+        # an index outside 0..n-1 is refused by the command as well: no message is written.  Probes: the generated one,
+        # and n distinct indices of which one is out of range (as many as the message has subsets)
+        n = case.nsub
+        probes = [list(range(1, n + 1)), list(range(n - 1)) + [n + 3]]
+        if sc.bad is not None:
+            probes.append(list(sc.bad))
+        for bad in probes:
+            out.classes.append('cli_out_of_range_probe')
+            dst2 = os.path.join(d, 'bad.bufr')
+            if os.path.exists(dst2):
+                os.remove(dst2)
+            o, so, se = cli.run_main(['subset', ','.join(str(i) for i in bad), src, dst2])
+            written = open(dst2, 'rb').read() if os.path.exists(dst2) else b''
+            if b'BUFR' in written:
+                return out.fail('subset command: an index outside 0..n-1 is not refused (a message is written)', indices=bad,
+                                n_subsets=n, n_bytes=len(written))
+            if 'Traceback' in se:
+                return out.fail('subset command: an index outside 0..n-1 ends in a traceback', indices=bad, stderr=se[-300:])
     return out
 
 
